@@ -9,6 +9,7 @@ pub mod c09;
 pub mod c10;
 pub mod c14;
 pub mod c16;
+pub mod c17;
 
 pub struct Prop {
     pub check: fn(&Ctx),
@@ -44,6 +45,10 @@ pub fn lookup(id: &str) -> Option<Prop> {
         "C16" => Prop {
             check: c16::check,
             replay: c16::replay,
+        },
+        "C17" => Prop {
+            check: c17::check,
+            replay: c17::replay,
         },
         _ => return None,
     })
